@@ -82,14 +82,19 @@ int32_t jls_tmap_add(struct jls_tmap_s * self, int64_t sample_id, int64_t timest
     int64_t * p2;
     if (self->entries_length >= self->entries_alloc) {
         size_t entries_alloc = self->entries_alloc * 2;
+        // realloc frees the old block when it moves it: keep each result that succeeded
         p1 = realloc(self->sample_id, entries_alloc * sizeof(struct jls_utc_summary_entry_s));
+        if (NULL != p1) {
+            self->sample_id = p1;
+        }
         p2 = realloc(self->utc, entries_alloc * sizeof(struct jls_utc_summary_entry_s));
+        if (NULL != p2) {
+            self->utc = p2;
+        }
         if ((NULL == p1) || (NULL == p2)) {
             // out of memory, do the best we can
             self->entries_length = self->entries_alloc - 1;
         } else {
-            self->sample_id = p1;
-            self->utc = p2;
             self->entries_alloc = entries_alloc;
         }
     }
